@@ -41,6 +41,8 @@ func main() {
 		os.Exit(cmdCheck(os.Args[2:]))
 	case "explain":
 		os.Exit(cmdExplain(os.Args[2:]))
+	case "checkall":
+		os.Exit(cmdCheckAll(os.Args[2:]))
 	case "list":
 		var ids []string
 		for id := range registry {
@@ -150,6 +152,54 @@ func cmdCheck(args []string) (code int) {
 		}
 	}
 	return finish(o.verif, spec, o.tier, seed, rr, started, o.repo)
+}
+
+// cmdCheckAll is a development aid (tools/seed_cross.py): the quick tier of every property over ONE load of
+// the program, each delimited by a line "== <id> exit=<n>".  The registered commands never use it.
+func cmdCheckAll(args []string) int {
+	o := parseOpts(args)
+	var ids []string
+	for id := range registry {
+		ids = append(ids, id)
+	}
+	sort.Strings(ids)
+	p := Load(o.repo, "", nil)
+	worst := 0
+	for _, id := range ids {
+		spec := registry[id]
+		code := func() (code int) {
+			started := time.Now()
+			defer func() {
+				if r := recover(); r != nil {
+					if ae, ok := r.(anchorError); ok {
+						fmt.Fprintf(os.Stdout, "UNDECIDED property=%s: %s\n", spec.ID, ae.msg)
+					} else {
+						fmt.Fprintf(os.Stdout, "UNDECIDED property=%s: internal error: %v\n", spec.ID, r)
+					}
+					code = 2
+				}
+			}()
+			rr := &runResult{}
+			c := NewCtx(p, spec.ID, "quick", "default tags, GOARCH=host")
+			for _, f := range p.SrcFuncs() {
+				c.SawFn(FuncName(f))
+			}
+			runGuarded(c, spec.Run)
+			mergeCtx(rr, c)
+			if spec.Arch386 != nil {
+				c32 := NewCtx(p, spec.ID, "quick", "int/uint modelled as 32 bits (GOARCH=386/arm)")
+				c32.Arch32 = true
+				runGuarded(c32, spec.Arch386)
+				mergeCtx(rr, c32)
+			}
+			return finish(o.verif, spec, "quick", 0, rr, started, o.repo)
+		}()
+		fmt.Printf("== %s exit=%d\n", id, code)
+		if code > worst {
+			worst = code
+		}
+	}
+	return worst
 }
 
 func cmdExplain(args []string) int {
